@@ -519,6 +519,12 @@ pub fn ci_wilson(
     population: usize,
     successes: usize,
 ) -> CIResult<Interval<f64>> {
+    #[cfg(stats_ci_verif)]
+    if let Some(_token) = crate::verif_trace::enter("W") {
+        let result = ci_wilson(confidence, population, successes);
+        crate::verif_trace::proportion("W", &confidence, population, successes, &result);
+        return result;
+    }
     if successes > population {
         return Err(CIError::InvalidSuccesses(successes, population));
     }
@@ -632,6 +638,12 @@ pub fn ci_z_normal(
     population: usize,
     successes: usize,
 ) -> CIResult<Interval<f64>> {
+    #[cfg(stats_ci_verif)]
+    if let Some(_token) = crate::verif_trace::enter("Z") {
+        let result = ci_z_normal(confidence, population, successes);
+        crate::verif_trace::proportion("Z", &confidence, population, successes, &result);
+        return result;
+    }
     if successes > population {
         return Err(CIError::InvalidSuccesses(successes, population));
     }
